@@ -165,6 +165,7 @@ def run(rep: Report, tier: str) -> None:
             rep.note(f"R12.1 exemption refers to a field that no longer exists: {cn}.{fl}")
 
     traversal_on_every_path(P, rep, "R12.1")
+    alias_after_operand(P, rep, "R12.1")
 
     # ---- R12.2 -----------------------------------------------------------------------------------------
     vs = P.func(f"{DAG}.visit_Start")
@@ -608,3 +609,36 @@ def traversal_on_every_path(P: Program, rep: Report, rule: str, only_nodes: Opti
     for k in used_guards:
         rep.exemption(rule, "/".join(k), TRAVERSAL_GUARDS[k])
     rep.floor(f"{rule} handler fields", n, 3 if only_nodes else 12)
+
+
+
+def alias_after_operand(P: Program, rep: Report, rule: str) -> None:
+    """The dependency analysis records a join alias (`DS_1 as a`) so that later mentions of `a` are not taken for datasets to load.  The
+    alias must be recorded only AFTER the aliased operand itself has been visited: `inner_join(DS_1 as DS_1, ...)` is legal, and if
+    the name is already in the alias set when the operand is visited the dataset is never made an input of the statement (it is not
+    loaded: `Table DS_1 does not exist`).  Rule: every `self.<set>.add(<x>.right.value)` is preceded, on every path, by a visit of
+    `<x>.left` or of `<x>` itself."""
+    n = 0
+    for cq in (DAG, f"{DAGMOD}.HRDAGAnalyzer"):
+        c = P.cls(cq)
+        for name, f in c.methods.items():
+            adds = [x for x in walk_no_nested(f.node) if isinstance(x, ast.Call) and isinstance(x.func, ast.Attribute) and x.func.attr == "add"
+                    and isinstance(x.func.value, ast.Attribute) and isinstance(x.func.value.value, ast.Name) and x.func.value.value.id == "self"
+                    and x.args and isinstance(x.args[0], ast.Attribute) and x.args[0].attr == "value" and isinstance(x.args[0].value, ast.Attribute) and x.args[0].value.attr == "right"]
+            if not adds:
+                continue
+            g = CFG(f.node, for_nonempty=True)
+            for a in adds:
+                root = src(a.args[0].value.value)
+                n += 1
+                an = [x for x in g.nodes if x.stmt is not None and x.kind == "stmt" and any(y is a for y in ast.walk(x.stmt))]
+                vis = [x for x in g.nodes if x.stmt is not None and any(isinstance(y, ast.Call) and isinstance(y.func, ast.Attribute) and y.func.attr == "visit" and y.args
+                                                                         and src(y.args[0]) in (root, f"{root}.left") for e in g.own_exprs(x) for y in ast.walk(e))]
+                rep.instance(rule, f"alias-after-operand/{f.qualname}", nontrivial=True, sample={"alias recorded from": src(a.args[0]), "operand visits": sorted({v.lineno for v in vis})})
+                for node_ in an:
+                    p = g.path_avoiding(g.entry, lambda x, node_=node_: x is node_, lambda x: x in vis, follow_exc=False)
+                    if p is not None:
+                        rep.add(Finding(rule, f"{rule}/alias-after-operand/{f.qualname}", f.module.rel, a.lineno, f.qualname,
+                                        f"`{src(a)}` records the alias before the aliased operand `{root}.left` has been visited: a dataset whose name equals an alias of the same join "
+                                        f"(`DS_1 as DS_1`, `DS_2 as DS_1`) is then taken for the alias, is not an input of the statement and is never loaded", describe_path(p)))
+    rep.floor(f"{rule} alias recording sites", n, 1)
